@@ -509,6 +509,14 @@ func (node *NotNode) AcceptVisitor(v Visitor) {
 
 func (node *NotNode) collectFragments(fragments []string) []string {
 	fragments = append(fragments, "!")
+	if _, ok := node.Operand.(*NotNode); ok {
+		// The parser collapses consecutive "!" operators ("!!x" parses as "x"), so a
+		// negation directly under a negation (only reachable via parentheses) must keep
+		// its parentheses for String() to parse back to the same selector.
+		fragments = append(fragments, "(")
+		fragments = node.Operand.collectFragments(fragments)
+		return append(fragments, ")")
+	}
 	return node.Operand.collectFragments(fragments)
 }
 
